@@ -496,10 +496,11 @@ def goal_family(name, goals, **kw):
     d.update(kw)
     return d
 PROPS['C03']['traces'].append(gen_family('gencrash', GEN_CRASH))
-PROPS['C03']['traces'].append(goal_family('goalscrash', ['TornLaterFile', 'PowerAfterMark', 'SyncBatchThenLoss']))
-PROPS['C04']['traces'].append(goal_family('goalsbatch', ['BatchPieceOrphan', 'SyncBatchThenLoss']))
-PROPS['C06']['traces'].append(goal_family('goalsmerge', ['EmptyMergeAfterAdopt', 'TwoCycles', 'GiveUpThenAdopt', 'OrphanTombstone']))
-PROPS['C07']['traces'].append(goal_family('goalsadopt', ['AdoptHalf', 'AdoptHintMoved', 'AdoptUnmarked', 'AdoptTwice'], thorough_goals=['LeftoverThenAdopt']))
+PROPS['C03']['traces'].append(goal_family('goalscrash', ['TornLaterFile', 'PowerAfterMark', 'SyncBatchThenLoss', 'Bug_MergeMarksUnflushed']))
+PROPS['C04']['traces'].append(goal_family('goalsbatch', ['BatchPieceOrphan', 'SyncBatchThenLoss', 'Bug_FinBatch0', 'Bug_BatchFlushPublishes']))
+PROPS['C01']['traces'].append(goal_family('goalsmap', ['Bug_BatchPutAfterDelete', 'Bug_MergeKeepsBatchId']))
+PROPS['C06']['traces'].append(goal_family('goalsmerge', ['EmptyMergeAfterAdopt', 'TwoCycles', 'GiveUpThenAdopt', 'OrphanTombstone', 'Bug_MergeKeepsBatchId', 'Bug_LazyHint'], thorough_goals=['Bug_LeftoverKept']))
+PROPS['C07']['traces'].append(goal_family('goalsadopt', ['AdoptHalf', 'AdoptHintMoved', 'AdoptUnmarked', 'AdoptTwice', 'Bug_AdoptPinnedOrder', 'Bug_AdoptBreaks'], thorough_goals=['LeftoverThenAdopt', 'Bug_LeftoverKept']))
 PROPS['C04']['traces'].append(gen_family('genbatch', GEN_BATCH, enforce=['recok', 'view', 'c13batch']))
 PROPS['C07']['traces'].append(gen_family('genmergecrash', GEN_MERGEC))
 PROPS['C06']['traces'].append(gen_family('genmerge', GEN_MERGE))
